@@ -5,6 +5,7 @@ package ice
 // position of the default session (deviation-bounded).
 
 import (
+	"net/netip"
 	"bytes"
 	"context"
 	"encoding/json"
@@ -155,6 +156,10 @@ func (m *dataModel) extras() []string {
 					evs = append(evs, fmt.Sprintf("inject:%d:%d:%s:%s", i, si, src, k))
 				}
 			}
+			// unknown sources that differ from the selected remote in one component of the address only
+			for _, src := range []string{"near-lowport", "near-highport", "near-ip"} {
+				evs = append(evs, fmt.Sprintf("inject:%d:%d:%s:20", i, si, src))
+			}
 		}
 	}
 
@@ -267,6 +272,23 @@ func (m *dataModel) doInject(i, si int, src, kind string) {
 		if sp := s.agent.getSelectedPair(); sp != nil {
 			from = sp.Remote.addr().String()
 		}
+	case "near-lowport", "near-highport", "near-ip":
+		base := m.wireAddr(peer.socks[0])
+		if sp := s.agent.getSelectedPair(); sp != nil {
+			base = sp.Remote.addr().String()
+		}
+		ap := netip.MustParseAddrPort(base)
+		switch src {
+		case "near-lowport":
+			ap = netip.AddrPortFrom(ap.Addr(), ap.Port()^0x80)
+		case "near-highport":
+			ap = netip.AddrPortFrom(ap.Addr(), ap.Port()^0x100)
+		default:
+			b := ap.Addr().As4()
+			b[2] ^= 0x40
+			ap = netip.AddrPortFrom(netip.AddrFrom4(b), ap.Port())
+		}
+		from = ap.String()
 	default:
 		from = m.wireAddr(peer.socks[len(peer.socks)-1])
 	}
